@@ -29,6 +29,11 @@ Full statement of the property on the model (`FullC11` below) and what is proved
                 for the model's output is `-`, F11a, F11c or F11d, never `unlisted` (hypotheses `headerOk`,
                 `unclaimed`; both shown necessary by witnesses) — so `unlisted` means Go ≠ model;
                 stray_never, ids_clauses_never: three of the oracle's clauses hold for ALL inputs
+  F11c inputs   describes_but_apks_partial (six of the seven clauses), apk_named_element_partial (every installed
+                apk keeps an element named after it when an identifier never comes with two names)
+  exact list    one_element_per_apk_partial_embedded (embedded SBOMs without a target element allowed),
+                one_element_per_distinct_apk_partial (under exactly ¬F11a ∧ ¬F11c: header ++ one per distinct entry)
+  index         index_oracle_cases / index_oracle_passes_partial: the index oracle on the model's index document
   order         order_independent_partial: with ≤ 1 target element per embedded SBOM the result (document or
                 error) is the same for all map iteration orders; order_dependent_multi_target (F11d) negation
 
@@ -41,6 +46,7 @@ import Apko.Proofs.Lemmas.SbomImage
 import Apko.Proofs.Lemmas.SbomVerdict
 import Apko.Proofs.Lemmas.SbomDriver
 import Apko.Proofs.Lemmas.SbomDedup
+import Apko.Proofs.Lemmas.SbomNamed
 
 namespace Apko.C11
 open Apko Apko.Sbom
@@ -820,6 +826,40 @@ example : ¬ DistinctIds ⟨"sha256:ab".toList, ["sha256:cd".toList], [], "1".to
 /-- the weaker hypothesis is satisfied where the old one is not: `foo` ships an SBOM (about `libz`) -/
 example : NoTarget benignFS benignOpts ∧ DistinctIds benignOpts ∧ noEmbeddedB benignFS benignOpts = false := by
   refine ⟨noTarget_iff.mpr (by decide), by unfold DistinctIds; decide, by decide⟩
+
+/-! ## what still holds on the inputs of class F11c -/
+
+/-- **describes_but_apks_partial** — with embedded SBOMs that replace apko's elements (F11c) but have at most
+one target each (¬F11d), six of the seven clauses of the specification hold: everything except "the element
+of an installed apk carries the database's version and checksum" -/
+theorem describes_but_apks_partial {o : Opts} {fs : SbomDir} {ord : List Id → List Id} {d : Doc}
+    (hord : OrdOk ord) (hh : headerOk o = true) (hu : unclaimed o fs = true) (hone : multiTarget o fs = false)
+    (h : generate o fs ord = .ok d) :
+    GoodIds fs d ∧ d.ids.Nodup ∧ Closed d ∧ ImageOk o d ∧ LayersOk o d ∧ NoStray o fs d := by
+  obtain ⟨c1, c2, c3⟩ := generate_common h
+  obtain ⟨u1, u2⟩ := generate_unclaimed (headerOk_iff.mp hh).1 hu h
+  exact ⟨c1, c2, generate_closed hord hone h, u1, u2, c3⟩
+
+/-- **apk_named_element_partial** — … and of the seventh clause this much remains: every installed apk has an
+element *named* after it (apko's own, or the one its embedded SBOM describes), provided that among all
+candidate elements (header, apko-generated, embedded) the same identifier never comes with two names
+(`nameById`, decidable).  F11c costs the version and the checksum, never the presence of the package. -/
+theorem apk_named_element_partial {o : Opts} {fs : SbomDir} {ord : List Id → List Id} {d : Doc}
+    (hord : OrdOk ord) (hone : multiTarget o fs = false) (hj : nameById o fs = true)
+    (h : generate o fs ord = .ok d) : ∀ a ∈ o.apks, ∃ p ∈ d.packages, p.name = a.name :=
+  generate_named hord hone hj h
+
+/-- satisfiable on the F11c witness and on the example with a replaced element and a relationship graph -/
+example : (multiTarget f11cOpts f11cFS = false ∧ nameById f11cOpts f11cFS = true ∧ embeddedTarget f11cOpts f11cFS = true) ∧
+    (multiTarget exOpts exFS = false ∧ nameById exOpts exFS = true ∧ embeddedTarget exOpts exFS = true) := by
+  decide
+
+/-- `nameById` is needed: on the F11a witness one identifier comes with the names `a+` and `aC43`, and no
+element is named `aC43` -/
+theorem nameById_needed :
+    multiTarget f11aOpts [] = false ∧ nameById f11aOpts [] = false ∧
+    okAnd (generate f11aOpts [] id) (fun d => !d.packages.any (fun p => p.name = "aC43".toList)) = true := by
+  decide
 
 /-! ## the orders the driver tries -/
 
